@@ -747,4 +747,112 @@ example :
     runRules (exChains2 .filterIn) 5 (filterInputChain exCfg) { exPkt with dport := 23 } = .drop := by
   decide
 
+/-! ## BPF mode (`setUpIptablesBPF`): packets from a workload-prefixed interface without the BPF seen
+mark are dropped on the INPUT and FORWARD paths -/
+
+/-- a block of rules each of which either does not match or drops, one of which matches, drops. -/
+theorem runRules_nomatch_or_drop (cs : Chains) (f : Nat) (pre rest : List Rule) (p : Pkt)
+    (h : ∀ r ∈ pre, r.matches p = false ∨ r.action = .drop) (hex : ∃ r ∈ pre, r.matches p = true) :
+    runRules cs f (pre ++ rest) p = .drop := by
+  induction pre with
+  | nil => obtain ⟨x, hx, _⟩ := hex; simp at hx
+  | cons a as ih =>
+    rw [List.cons_append]
+    cases hm : a.matches p with
+    | true =>
+      rcases h a List.mem_cons_self with h' | h'
+      · rw [hm] at h'; cases h'
+      · exact runRules_cons_drop cs f _ _ p hm h'
+    | false =>
+      rw [runRules_cons_nomatch cs f _ _ p hm]
+      apply ih (fun x hx => h x (List.mem_cons_of_mem _ hx))
+      obtain ⟨x, hx, hxm⟩ := hex
+      rcases List.mem_cons.1 hx with e | e
+      · subst e; rw [hm] at hxm; cases hxm
+      · exact ⟨x, e, hxm⟩
+
+/-- without the seen bit neither the bypass nor the fall-through mark pattern can match. -/
+theorem unseen_not_sub (m z : Nat) (hz : z &&& markSeen = markSeen) (h : m &&& markSeen ≠ markSeen) :
+    (m &&& z == z) = false := by
+  apply Bool.eq_false_iff.2
+  intro he
+  have he' : m &&& z = z := by simpa using he
+  apply h
+  calc m &&& markSeen = m &&& (z &&& markSeen) := by rw [hz]
+    _ = (m &&& z) &&& markSeen := (Nat.and_assoc _ _ _).symm
+    _ = z &&& markSeen := by rw [he']
+    _ = markSeen := hz
+
+/-- FORWARD, BPF mode, either IP version, BPF IPv6 support on or off, whatever the dispatch chains
+contain and whatever the out-interface: a packet from an interface matching a workload prefix that
+does not carry the BPF seen mark (no BPF program on that interface: Felix does not know it) is
+dropped. -/
+theorem bpf_unseen_workload_iface_dropped_forward (cs : Chains) (f : Nat) (c : Config) (v6 bpf6 : Bool) (p : Pkt)
+    (hif : ∃ pfx ∈ c.prefixes, ifaceMatches (pfx ++ "+") p.inIf = true)
+    (hm : p.mark &&& markSeen ≠ markSeen) :
+    runRules cs f (bpfForwardRules c v6 bpf6) p = .drop := by
+  unfold bpfForwardRules
+  rw [runRules_cons_nomatch cs f _ _ p (by
+    simp only [bpfFwdBypass, Rule.matches, List.all_cons, List.all_nil, Crit.holds, Bool.and_true]
+    exact unseen_not_sub _ _ (by decide) hm)]
+  apply runRules_nomatch_or_drop
+  · intro r hr
+    obtain ⟨n, _, rfl⟩ := List.mem_map.1 hr
+    exact Or.inr rfl
+  · obtain ⟨pfx, hp, hpm⟩ := hif
+    refine ⟨bpfFwdDropUnseen pfx, List.mem_map.2 ⟨pfx, hp, rfl⟩, ?_⟩
+    have : (p.mark &&& markSeen == markSeen) = false := by simpa using hm
+    simp [bpfFwdDropUnseen, Rule.matches, Crit.holds, hpm, this]
+
+/-- INPUT, BPF mode, whatever the endpoint-to-host action: same statement. -/
+theorem bpf_unseen_workload_iface_dropped_input (cs : Chains) (f : Nat) (c : Config) (p : Pkt)
+    (hif : ∃ pfx ∈ c.prefixes, ifaceMatches (pfx ++ "+") p.inIf = true)
+    (hm : p.mark &&& markSeen ≠ markSeen) :
+    runRules cs f (bpfInputRules c) p = .drop := by
+  have hns : (p.mark &&& markSeen == markSeen) = false := by simpa using hm
+  have hft : (p.mark &&& markSeenFallThrough == markSeenFallThrough) = false :=
+    unseen_not_sub _ _ (by decide) hm
+  unfold bpfInputRules
+  rw [runRules_skip cs f _ _ p (by
+    intro r hr
+    simp only [bpfInputHead, List.mem_cons, List.mem_nil_iff, or_false] at hr
+    rcases hr with rfl | rfl | rfl <;> simp [Rule.matches, Crit.holds, hft])]
+  rw [← List.append_nil (List.flatten _)]
+  apply runRules_nomatch_or_drop
+  · intro r hr
+    obtain ⟨l, hl, hrl⟩ := List.mem_flatten.1 hr
+    obtain ⟨n, _, rfl⟩ := List.mem_map.1 hl
+    unfold bpfInputPrefixRules at hrl
+    rcases List.mem_append.1 hrl with h | h
+    · split at h
+      · simp only [List.mem_cons, List.mem_nil_iff, or_false] at h
+        subst h
+        left
+        simp [Rule.matches, Crit.holds, hns]
+      · simp at h
+    · simp only [List.mem_cons, List.mem_nil_iff, or_false] at h
+      subst h
+      exact Or.inr rfl
+  · obtain ⟨pfx, hp, hpm⟩ := hif
+    refine ⟨bpfInputDropUnseen pfx, ?_, ?_⟩
+    · apply List.mem_flatten.2
+      exact ⟨bpfInputPrefixRules c pfx, List.mem_map.2 ⟨pfx, hp, rfl⟩, by simp [bpfInputPrefixRules]⟩
+    · simp [bpfInputDropUnseen, Rule.matches, Crit.holds, hpm, hns]
+
+/-- why the ORDER of the forward rules matters (the drop must precede the to-workload dispatch): with
+the drop moved next to the final from-workload ACCEPT, a packet from an unknown `cali` interface to a
+known local workload is ACCEPTed by `cali-to-wl-dispatch`.  The real order drops it. -/
+theorem bpf_forward_drop_must_precede_dispatch_witness :
+    let c : Config := { ipip := false, vxlan := false, vxlanPort := 0, toHost := .drop, filterAllow := .accept,
+                        mangleAllow := .accept, disableCtInvalid := false, prefixes := ["cali"],
+                        failsafeIn := [], failsafeOut := [] }
+    let cs : Chains := fun n => if n = chToWlDispatch then some (wlAllowChain ["caliknown"]) else none
+    let p : Pkt := { proto := 6, sport := 1, dport := 80, src := 1, dst := 2, inIf := "calirogue", outIf := "caliknown",
+                     ct := 0, mark := 0, dstLocal := false, srcSets := [] }
+    runRules cs 3 (bpfForwardRules c false false) p = .drop ∧
+    runRules cs 3 (bpfFwdBypass :: (bpfFwdTail c ++ c.prefixes.map bpfFwdDropUnseen)) p = .accept ∧
+    -- non-vacuity of the other side: a policed packet (seen mark) from a workload leaves the host
+    runRules cs 3 (bpfForwardRules c false false) { p with mark := markSeen, outIf := "eth0" } = .accept := by
+  decide
+
 end CalicoVerif.C40
